@@ -196,6 +196,8 @@ def scan_helper(ctx, key, name, want_flag, mutating):
                         item = ent[1]
                     if not (idxv is not None and idxv[0] == 'field' and idxv[2] == '0' and idxv[1] == item and rem[0].idx > eqbr[-1].idx):
                         ctx.violate(key, p, '%s removes an index that is not the position of the matching entry: %s' % (name, fmt(idxv)), at=rem[0].at)
+                    elif not enumerate_of_plain_iter(item):
+                        ctx.violate(key, p, '%s: the removed index comes from an iterator that is not exactly wait_list.iter().enumerate() (with rev/skip/filter in between the index is not the position in the list: another waiter is removed, the caller\'s entry stays)' % name, at=rem[0].at)
             else:
                 if muts:
                     ctx.violate(key, p, '%s mutates the wait list' % name)
@@ -207,6 +209,28 @@ def scan_helper(ctx, key, name, want_flag, mutating):
                 ctx.violate(key, p, '%s returns false although an entry matched' % name)
     if not (saw_true and saw_false):
         ctx.violate(key, None, '%s cannot return both true and false' % name, sig='cases')
+
+
+def enumerate_of_plain_iter(item):
+    """item = payload of next(&mut it) where it = [into_iter(] enumerate( VecDeque::iter(&wait_list) ) [)]"""
+    # item = ('field', ('downcast', nextcall, 'Some'), '0')
+    try:
+        nextcall = item[1][1]
+        r = nextcall[3][0]
+        it = r[2] if r[0] in ('ref', 'rawptr') and len(r) > 2 else None
+        if it is None:
+            return False
+        if it[0] == 'call' and it[2] == 'std::iter::IntoIterator::into_iter':
+            it = it[3][0]
+        if not (it[0] == 'call' and it[2] == 'std::iter::Iterator::enumerate'):
+            return False
+        src = it[3][0]
+        if not (src[0] == 'call' and src[2] == 'std::collections::VecDeque::iter'):
+            return False
+        from mir import ci_field_ref
+        return ci_field_ref(src[3][0]) == 'wait_list'
+    except (IndexError, TypeError):
+        return False
 
 
 @rule('H4', ['C13', 'C07', 'C02', 'C15', 'C01'], 'cancel_*_signal: true iff exactly one order-preserving removal of the matching entry, false without mutation')
